@@ -573,6 +573,7 @@ class FakeFile:
     def __init__(self, fs, name, mode):
         self.fs, self.name, self.mode = fs, name, mode
         self.closed = False
+        self.pos = 0
         if 'w' in mode:
             fs.files[name] = '' if 'b' not in mode else []
 
@@ -588,7 +589,14 @@ class FakeFile:
         return len(data)
 
     def read(self, n=-1):
+        """Reads from the current position (a file position is kept, so block-wise readers terminate)."""
         c = self.fs.files[self.name]
+        if n is not None and n >= 0:
+            chunk = c[self.pos:self.pos + n]
+        else:
+            chunk = c[self.pos:]
+        self.pos += len(chunk)
+        c = chunk
         if isinstance(c, str):
             if 'b' in self.mode:
                 if tokens.has_token(c):
